@@ -191,11 +191,21 @@ def MatchFilter.probeOld (mf : MatchFilter) (ci : Bool) : Probe :=
 def wordsOfKeys (ks : List Bytes) : List Bytes :=
   (ks.flatMap fun k => (splitSpace k).filter (fun w => !w.isEmpty)).foldl insertKey []
 
-/-- `SearchQuery.GetAllBlockBloomKeysToSearch()` for a match filter — what the block checks consume.  As repaired by
-patch c03-A: every key (a phrase, a multi-word term) is replaced by its words (operator and second-chance map unchanged) -/
-def MatchFilter.probe (mf : MatchFilter) (ci : Bool) : Probe :=
+/-- a match word without any bloom key: empty or made of spaces only (`len(bytes.Trim(word, " ")) == 0`) -/
+def blankWord (w : Bytes) : Bool := w.all (· == 32)
+
+/-- `SearchQuery.GetAllBlockBloomKeysToSearch()` for a match filter as it was between patch c03-A and patch c03-F: every
+key (a phrase, a multi-word term) replaced by its words, operator and second-chance map unchanged -/
+def MatchFilter.probeNoBlankTest (mf : MatchFilter) (ci : Bool) : Probe :=
   let p := mf.probeOld ci
   { p with keys := wordsOfKeys p.keys }
+
+/-- `SearchQuery.GetAllBlockBloomKeysToSearch()` for a match filter — what the block checks consume.  Patch c03-A: the
+keys are split into words.  Patch c03-F: an OR filter one of whose match words has no bloom key probes nothing (the bloom
+cannot rule a block out for it) -/
+def MatchFilter.probe (mf : MatchFilter) (ci : Bool) : Probe :=
+  let p := mf.probeNoBlankTest ci
+  if p.op == .or && mf.words.any blankWord then { p with keys := [] } else p
 
 /-- a string comparison `col = value` / `col != value` as `SearchQuery.GetAllBlockBloomKeysToSearch` sees it:
 `fopEq` = the operator is Equals, `isRegex` = the value holds `*`, `orig` = OriginalColumnValue ([] / hasOrig=false = nil) -/
